@@ -828,6 +828,10 @@ class WorkerPool:
                         self._worker_comms.wait_until_progress_bar_is_complete()
 
                 except KeyboardInterrupt:
+                    # A KeyboardInterrupt raised by a task has already been handled like any other exception (the
+                    # workers are gone by now): pass it on
+                    if not self._workers:
+                        raise
                     self._handle_exception()
 
                 except BaseException:
